@@ -5,12 +5,14 @@ Streams (model `Wpull.Request` vs the real code in the repo under test):
            strategies (redirect cycles and unbounded chains over 301/302/303/307/308, missing / unparsable
            Location, Location on non-redirects, 401 for ever, 401 alternating with redirects, 5xx, closed
            connections, garbage) x max_redirects 0..6: number of requests, outcome and last status vs the model
-  crawl    trace acceptance, end to end: the REAL application (Builder -> pipeline, URL table, web processor,
+  crawl    (also with robots.txt enabled: /robots.txt perpetually 5xx / reset, 5xx then 200, disallowing, cycles)
+           trace acceptance, end to end: the REAL application (Builder -> pipeline, URL table, web processor,
            FetchRule/ResultRule, TriesFilter, WebClient) against the same strategies x tries 0..4: the visits of
            the URL as seen at the URL table (requests per visit, status and try_count checked in) vs the model
 Direct oracle on the real runs: redirect follow-ups per visit <= max_redirects; requests per visit
 <= 2*(max_redirects+1); authentication retries per visit <= 1 (the sentence) — more is the listed finding;
-exactly one check-in per visit, try_count +1; visits that issue a request <= tries (tries >= 1); the run ends.
+exactly one check-in per visit, try_count +1; visits that issue a request (page or robots.txt) <= tries (tries >= 1);
+no request at all once TriesFilter refuses; check-outs <= tries+1; the run ends (a check-out cap cuts runaway crawls).
 """
 import compat  # noqa: F401
 from runner import Infra, unjson
@@ -131,18 +133,44 @@ def check_session(ctx, case):
 
 
 # ------------------------------------------------------------------ crawl (end to end)
+ROBOTS_DISALLOW = b'User-agent: *\nDisallow: /\n'
+
+
+def robots_strategies(n):
+    """name -> (robots.txt replies, disallow?)  — what the server does with /robots.txt"""
+    out = {}
+    out['robots-500-forever'] = ([rep(500) for _ in range(n)], False)
+    out['robots-503-forever'] = ([rep(503) for _ in range(n)], False)
+    out['robots-reset-forever'] = ([{'status': 0, 'mode': 'close'} for _ in range(n)], False)
+    out['robots-5xx-then-200'] = ([rep(500), rep(502), rep(200)], False)
+    out['robots-5xx-then-disallow'] = ([rep(500), dict(rep(200), body=ROBOTS_DISALLOW)], True)
+    out['robots-disallow'] = ([dict(rep(200), body=ROBOTS_DISALLOW)], True)
+    out['robots-404'] = ([rep(404)], False)
+    out['robots-garbage'] = ([{'status': 0, 'mode': 'garbage'}], False)
+    out['robots-redirect-cycle'] = ([rep(302, b'/robots.txt') for _ in range(n)], False)
+    out['robots-alt-reset-500'] = ([({'status': 0, 'mode': 'close'} if k % 2 else rep(500)) for k in range(n)], False)
+    out['robots-401-forever'] = ([rep(401) for _ in range(n)], False)
+    return out
+
+
 def check_crawl(ctx, case):
     replies = case['replies']
     login = tuple(case['login']) if case.get('login') else None
     m, tries = case['max_redirects'], case['tries']
-    res = rc.run_crawl(case['url'], replies, tries, m, login=login)
-    real = ','.join('%d:%s:%d' % (v['requests'], v['status'], v['try_count']) for v in res['visits']) or '-'
+    robots = None
+    if case.get('robots') is not None:
+        robots = {'replies': case['robots'], 'disallow': bool(case.get('robots_disallow'))}
+    res = rc.run_crawl(case['url'], replies, tries, m, login=login, robots=robots)
+    real = ','.join('%d:%d:%s:%d' % (v['requests'], v['robots_requests'], v['status'], v['try_count']) for v in res['visits']) or '-'
     line = rc.session_line(res, m, True, [], login, 'GET', op='crawl', tries=tries)
     model = ctx.model.ask([line])[0]
-    tags = ['crawl:' + case.get('name', 'random'), 'crawl:tries=%d' % tries, 'crawl:visits=%d' % len(res['visits'])]
-    ctx.case(('crawl', repr(case)), nontrivial=len(res['hops']) > 0, tags=tags)
-    if res['hung']:
-        ctx.fail('no-termination', 'Application.run', case, 'the crawl did not end (%d requests so far)' % len(res['hops']))
+    tags = ['crawl:' + case.get('name', 'random'), 'crawl:tries=%d' % tries, 'crawl:visits=%d' % len(res['visits']),
+            'crawl:robots=' + (case.get('robots_name', 'on') if robots else 'off')]
+    ctx.case(('crawl', repr(case)), nontrivial=len(res['hops']) + len(res['rhops']) > 0, tags=tags)
+    if res['hung'] or res['capped']:
+        ctx.fail('no-termination', 'Application.run', case,
+                 'the crawl did not end: %d check-outs of the URL with tries=%d (%d page requests, %d robots.txt requests so far); '
+                 'visits %s' % (res['checkouts'], tries, len(res['hops']), len(res['rhops']), real[:300]))
         return res
     if model != real:
         ctx.disagree('crawl', case, model, real)
@@ -152,9 +180,16 @@ def check_crawl(ctx, case):
     for v in res['visits']:
         if v['try_count'] != v['try_before'] + 1:
             ctx.fail('try-count-increment', 'ItemSession', case, 'visit changed try_count %d -> %d' % (v['try_before'], v['try_count']))
-        if v['requests']:
+        if v['requests'] or v['robots_requests']:
             with_request += 1
+            if tries >= 1 and v['try_before'] >= tries:
+                ctx.fail('request-after-tries', 'FetchRule.check_initial_web_request', case,
+                         'a visit with try_count=%d >= tries=%d still sent %d page and %d robots.txt requests'
+                         % (v['try_before'], tries, v['requests'], v['robots_requests']))
+        if v['requests']:
             oracle_visit(ctx, case, replies[k:], v['requests'], m, 'WebProcessorSession')
+        if v['robots_requests'] > 2 * (m + 1):
+            ctx.fail('too-many-requests', 'RobotsTxtChecker', case, '%d robots.txt requests in one visit' % v['robots_requests'])
         k += v['requests']
     ins = [e for e in res['events'] if e[0] == 'in']
     outs = [e for e in res['events'] if e[0] == 'out']
@@ -162,9 +197,15 @@ def check_crawl(ctx, case):
         ctx.fail('check-in-count', 'ItemSession', case, '%d check-outs, %d check-ins' % (len(outs), len(ins)))
     if tries >= 1 and with_request > tries:
         ctx.fail('too-many-tries', 'TriesFilter', case, '%d visits issued requests with tries=%d' % (with_request, tries))
+    if tries >= 1 and len(outs) > tries + 1:
+        ctx.fail('too-many-visits', 'URLItemSource', case, '%d check-outs of the URL with tries=%d' % (len(outs), tries))
+    if tries >= 1 and res['visits'] and max(v['try_count'] for v in res['visits']) > tries + 1:
+        ctx.fail('try-count-runaway', 'ItemSession', case, 'try_count reached %d with tries=%d'
+                 % (max(v['try_count'] for v in res['visits']), tries))
     if res['visits'] and res['visits'][-1]['status'] in ('todo', 'error', 'in_progress'):
         ctx.fail('left-unfinished', 'URLItemSource', case, 'the crawl ended with the URL in status %s' % res['visits'][-1]['status'])
-    ctx.sample({'stream': 'crawl', 'strategy': case.get('name'), 'tries': tries, 'max_redirects': m, 'visits': real})
+    ctx.sample({'stream': 'crawl', 'strategy': case.get('name'), 'robots': case.get('robots_name'), 'tries': tries,
+                'max_redirects': m, 'visits': real})
     return res
 
 
@@ -219,6 +260,32 @@ def run(ctx):
             script = script[:9]       # unlimited tries: the script must end (then 200)
         check_crawl(ctx, {'stream': 'crawl', 'name': name, 'url': 'http://a.example/x', 'replies': script, 'tries': tries,
                           'max_redirects': m, 'login': login})
+    # robots.txt enabled: the server also controls the robots.txt answers
+    pages = strategies(40)
+    rtodo = []
+    for rname, (rscript, dis) in robots_strategies(40).items():
+        for pname in (('500-forever', 'redirect-then-404', 'close-forever', 'self-301', 'chain-307') if thorough
+                      else ('500-forever', 'redirect-then-404')):
+            for tries, m in (((1, 1), (2, 1), (3, 2), (4, 2)) if thorough else ((2, 1), (3, 2))):
+                rtodo.append((rname, rscript, dis, pname, tries, m))
+    if not thorough:
+        keep = [t for t in rtodo if t[0] in ('robots-500-forever', 'robots-reset-forever', 'robots-5xx-then-200', 'robots-alt-reset-500')]
+        rest = [t for t in rtodo if t not in keep]
+        rtodo = keep + crng.sample(rest, min(len(rest), 10))
+    for rname, rscript, dis, pname, tries, m in rtodo:
+        check_crawl(ctx, {'stream': 'crawl', 'name': pname, 'url': 'http://a.example/x', 'replies': pages[pname], 'tries': tries,
+                          'max_redirects': m, 'login': None, 'robots': rscript, 'robots_disallow': dis, 'robots_name': rname})
+    for _ in range(ctx.scale(10, 300)):
+        m = crng.choice([0, 1, 2])
+        rs = [crng.choice([rep(500), rep(503), {'status': 0, 'mode': 'close'}, rep(200), rep(404), rep(302, b'/robots.txt'),
+                           {'status': 0, 'mode': 'garbage'}, dict(rep(200), body=ROBOTS_DISALLOW)]) for _ in range(crng.choice([1, 3, 8]))]
+        dis = any(r.get('body') for r in rs)
+        if dis:
+            rs = [r if not (r.get('status') == 200 and not r.get('body')) else dict(r, body=ROBOTS_DISALLOW) for r in rs]
+        ps = [r for r in random_script(crng, crng.choice([2, 5, 9]))
+              if not (r.get('location') or b'').startswith((b'http', b'//', b'ftp'))]      # same host: one robots pool entry
+        check_crawl(ctx, {'stream': 'crawl', 'name': 'random', 'url': 'http://a.example/x', 'replies': ps, 'tries': crng.choice([1, 2, 3]),
+                          'max_redirects': m, 'login': None, 'robots': rs, 'robots_disallow': dis, 'robots_name': 'random'})
     for _ in range(ctx.scale(25, 600)):
         m = crng.choice([0, 1, 2, 3])
         tries = crng.choice([0, 1, 2, 3, 4])
